@@ -41,6 +41,7 @@
 #include "stir/ViewSegmentNumbers.h"
 #include "stir/ExamInfo.h"
 #include "stir/ProjDataInMemory.h"
+#include "stir/ProjDataInfoSubsetByView.h"
 #include <sstream>
 #include <iostream>
 #include <set>
@@ -390,9 +391,24 @@ check_subsets(Ctx& X)
   std::vector<double> sum_f(Ax.size(), 0.), sum_b(Aty.size(), 0.);
   std::vector<int> covered(Ax.size(), 0);
   const float prefill = 7.25F;
+  // (AUD_C) the subset membership is an INPUT of the oracle: subset_mask() asks the symmetries object of the code under test.
+  // The harness's own statement where it needs no knowledge of the symmetry code: none of the supported symmetries other than the
+  // two "minus phi" ones changes the view of a bin (swap_segment, swap_s and shift_z act inside a view: DataSymmetriesForBins_PET_
+  // CartesianGrid.h), so when neither do_symmetry_90degrees_min_phi nor do_symmetry_180degrees_min_phi is requested, subset k of n
+  // is exactly the set of bins of the views min_view + k, min_view + k + n, ... (ForwardProjectorByBin.h / find_basic_vs_nums_in_subset).
+  const bool own_subsets = c["sym"][std::size_t(0)].get<int>() == 0 && c["sym"][std::size_t(1)].get<int>() == 0;
+  if (own_subsets)
+    stats().cls("subset membership: the harness's own statement (no minus-phi symmetry requested)");
   for (int k = 0; k < n; ++k)
     {
       const std::vector<char> mask = X.subset_mask(k, n);
+      if (own_subsets)
+        for (std::size_t i = 0; i < mask.size(); ++i)
+          {
+            const bool own = (X.P.bins[i].view_num() - X.S.pdi->get_min_view_num()) % n == k;
+            VF_CHECK(own == (mask[i] != 0), "(4) subset ", k, "/", n, ": the symmetries put ", show_bin(X.P.bins[i]), mask[i] ? " into" : " outside",
+                     " the subset, but no view symmetry is requested and its view is ", own ? "" : "not ", "k modulo n ", X.desc);
+          }
       long inside = 0;
       for (char m : mask)
         inside += m;
@@ -464,6 +480,150 @@ check_subsets(Ctx& X)
   return Result::pass();
 }
 
+// ---- (AUD_C) clauses 1 + 4 for a data set that is SMALLER than the geometry the projectors were set up for -----------------
+// ForwardProjectorByBin::check / BackProjectorByBin::check accept any data with "*set_up_proj_data_info >= *data's info"
+// (ProjDataInfo::operator>=: fewer segments, fewer tangential positions, fewer axial positions; views and TOF identical), and
+// src/test/test_proj_data_info_subsets.cxx uses it (reduced segment range).  Case key "smaller" = [segments cut on each side,
+// tangential cut low, high, axial cut low, high]; segment ranges stay symmetric (find_basic_vs_nums_in_subset asserts that the
+// related view/segment pairs stay inside the segment range) and +-segment get the same axial cut (a related-viewgram group has one
+// axial range).  Every bin of the smaller data must equal the bin of the whole-data projection (subset k of n, zero = true / false
+// into pre-filled data), and its back projection must be P^T applied to the data extended by zeros.
+Result
+check_smaller_data(Ctx& X)
+{
+  const json& c = X.c;
+  if (!c.contains("smaller") || !c["smaller"].is_array() || c["smaller"].size() < 5)
+    return Result::pass();
+  auto cut = [&](std::size_t k) { return int(std::max(0L, c["smaller"][k].get<long>())); };
+  const ProjDataInfo& p = *X.S.pdi;
+  shared_ptr<ProjDataInfo> p2(p.clone());
+  {
+    const int ms = std::min(p.get_max_segment_num(), -p.get_min_segment_num());
+    const int keep = std::max(0, ms - cut(0));
+    if (p.get_max_segment_num() == -p.get_min_segment_num() && keep < ms)
+      p2->reduce_segment_range(-keep, keep);
+    int t0 = p.get_min_tangential_pos_num() + cut(1), t1 = p.get_max_tangential_pos_num() - cut(2);
+    if (t0 > t1)
+      t0 = t1 = std::max(p.get_min_tangential_pos_num(), std::min(p.get_max_tangential_pos_num(), 0));
+    p2->set_min_tangential_pos_num(t0);
+    p2->set_max_tangential_pos_num(t1);
+    for (int sg = 0; sg <= p2->get_max_segment_num(); ++sg)
+      {
+        if (p.get_min_axial_pos_num(sg) != p.get_min_axial_pos_num(-sg) || p.get_max_axial_pos_num(sg) != p.get_max_axial_pos_num(-sg))
+          continue;
+        int a0 = p.get_min_axial_pos_num(sg) + cut(3), a1 = p.get_max_axial_pos_num(sg) - cut(4);
+        if (a0 > a1)
+          a0 = a1 = p.get_min_axial_pos_num(sg);
+        for (int s2 : { sg, -sg })
+          {
+            p2->set_min_axial_pos_num(a0, s2);
+            p2->set_max_axial_pos_num(a1, s2);
+          }
+      }
+  }
+  if (*p2 == p)
+    {
+      stats().cls("smaller data: requested, nothing to cut");
+      return Result::pass();
+    }
+  if (!(p >= *p2))
+    { // (does not happen for the cuts above; the documented precondition of the calls below)
+      stats().cls("smaller data: not >= (skipped)");
+      return Result::pass();
+    }
+  stats().cls("smaller data: exercised");
+  if (p2->get_num_segments() != p.get_num_segments())
+    stats().cls("smaller data: fewer segments");
+  if (p2->get_num_tangential_poss() != p.get_num_tangential_poss())
+    stats().cls(p2->get_min_tangential_pos_num() + p2->get_max_tangential_pos_num() == p.get_min_tangential_pos_num() + p.get_max_tangential_pos_num()
+                    ? "smaller data: fewer tangential positions, cut equally"
+                    : "smaller data: fewer tangential positions, cut unequally");
+  if (p2->get_num_tangential_poss() == 1)
+    stats().cls("smaller data: a single tangential position");
+  if (p2->get_num_axial_poss(0) != p.get_num_axial_poss(0))
+    stats().cls("smaller data: fewer axial positions");
+
+  std::vector<Bin> bins2;
+  vp::ExplicitP::enumerate_bins(*p2, bins2);
+  std::vector<double> x, yfull(X.P.bins.size(), 0.);
+  auto imx = X.random_img(c["seed_x"].get<uint64_t>() + 53, x);
+  const std::vector<double> Ax = X.P.forward(x);
+  const double scf = std::max(max_abs(Ax), 1e-30);
+  // y on the smaller data (exact zeros included), its extension by zeros on the full data
+  ProjDataInMemory y2(X.S.exam, p2);
+  {
+    SplitMix g(c["seed_y"].get<uint64_t>() + 53);
+    for (int k = p2->get_min_tof_pos_num(); k <= p2->get_max_tof_pos_num(); ++k)
+      for (int sg = p2->get_min_segment_num(); sg <= p2->get_max_segment_num(); ++sg)
+        for (int v = p2->get_min_view_num(); v <= p2->get_max_view_num(); ++v)
+          {
+            Viewgram<float> vg2 = y2.get_empty_viewgram(v, sg, false, k);
+            for (int a = p2->get_min_axial_pos_num(sg); a <= p2->get_max_axial_pos_num(sg); ++a)
+              for (int t = p2->get_min_tangential_pos_num(); t <= p2->get_max_tangential_pos_num(); ++t)
+                {
+                  float val = float(g.real(-1., 1.));
+                  if (g.range(0, 9) == 0)
+                    val = 0.F;
+                  vg2[a][t] = val;
+                  yfull[std::size_t(X.P.bin_index(Bin(sg, v, a, t, k)))] = double(val);
+                }
+            y2.set_viewgram(vg2);
+          }
+  }
+  const int n = std::max(1, std::min(c["num_subsets"].get<int>(), p.get_num_views()));
+  std::set<int> ks = { 0, n - 1, int((c["seed_x"].get<uint64_t>() >> 7) % uint64_t(n)) };
+  const float prefill = -3.5F;
+  for (int k : ks)
+    {
+      const std::vector<char> mask = X.subset_mask(k, n);
+      for (int zero = 0; zero < 2; ++zero)
+        {
+          ProjDataInMemory out(X.S.exam, p2);
+          out.fill(prefill);
+          X.fwd->forward_project(out, *imx, k, n, zero != 0);
+          for (int kk = p2->get_min_tof_pos_num(); kk <= p2->get_max_tof_pos_num(); ++kk)
+            for (int sg = p2->get_min_segment_num(); sg <= p2->get_max_segment_num(); ++sg)
+              for (int v = p2->get_min_view_num(); v <= p2->get_max_view_num(); ++v)
+                {
+                  const Viewgram<float> vg2 = out.get_viewgram(v, sg, false, kk);
+                  for (int a = p2->get_min_axial_pos_num(sg); a <= p2->get_max_axial_pos_num(sg); ++a)
+                    for (int t = p2->get_min_tangential_pos_num(); t <= p2->get_max_tangential_pos_num(); ++t)
+                      {
+                        const Bin b(sg, v, a, t, kk);
+                        const std::size_t bi = std::size_t(X.P.bin_index(b));
+                        const double got = vg2[a][t];
+                        if (mask[bi])
+                          {
+                            stats().maxi("(1) smaller data: max |A x - P x| / max|P x|", std::fabs(got - Ax[bi]) / scf);
+                            VF_CHECK(std::fabs(got - Ax[bi]) <= TOL_EXPLICIT * scf, "(1) data smaller than the set_up geometry (segments ", p2->get_min_segment_num(), "..", p2->get_max_segment_num(),
+                                     ", tang ", p2->get_min_tangential_pos_num(), "..", p2->get_max_tangential_pos_num(), ", ax of segment 0 ", p2->get_min_axial_pos_num(0), "..",
+                                     p2->get_max_axial_pos_num(0), "), subset ", k, "/", n, " zero=", zero, ": ", show_bin(b), " = ", got, " but P x = ", Ax[bi], " ", X.desc);
+                          }
+                        else
+                          {
+                            const double want = (zero && n > 1) ? 0. : double(prefill);
+                            VF_CHECK(got == want, "(4) data smaller than the set_up geometry, subset ", k, "/", n, " zero=", zero, ": ", show_bin(b), " outside the subset is ", got, " instead of ",
+                                     want, " ", X.desc);
+                          }
+                      }
+                }
+        }
+      auto bk = X.new_img();
+      bk->fill(2.5F); // back_project(image, data) "overwrites the data already present in the volume" (BackProjectorByBin.h:81)
+      X.bck->back_project(*bk, y2, k, n);
+      const std::vector<double> vb = X.P.image_to_vec(*bk);
+      const std::vector<double> ref = X.P.back(yfull, &mask);
+      const double scb = std::max(std::max(max_abs(ref), max_abs(X.P.back(yfull))), 1e-30);
+      std::size_t w = 0;
+      const double d = max_diff(vb, ref, &w);
+      stats().maxi("(1) smaller data: max |A^T y - P^T y| / max", d / scb);
+      VF_CHECK(d <= TOL_EXPLICIT * scb, "(1) back projection of data smaller than the set_up geometry, subset ", k, "/", n, ", differs from P^T (y extended by zeros) at voxel index ", w, ": ",
+               vb[w], " vs ", ref[w], ", max ", scb, " ", X.desc);
+    }
+  stats().count("smaller-data subset calls checked", long(ks.size()));
+  return Result::pass();
+}
+
 // ---- clauses 2 + 4 over related-viewgram groups and sub-ranges ------------------------------------------------
 Result
 check_groups(Ctx& X)
@@ -479,6 +639,11 @@ check_groups(Ctx& X)
   const std::vector<double> Ax = X.P.projdata_to_vec(*whole);
   const double scf = std::max(max_abs(Ax), 1e-30);
   X.fwd->set_input(*imx);
+  // (AUD_C) viewgrams handed to forward_project(RelatedViewgrams&, ...) are not empty: junk inside must be overwritten, junk
+  // outside a requested sub-range must stay bit-identical ("projects ... into the viewgrams, overwrites the data already present")
+  const bool prefill_vg = c.value("prefill_vg", false);
+  const float vg_junk = -7.25F;
+  stats().cls(prefill_vg ? "group / sub-range calls: viewgrams pre-filled with junk" : "group / sub-range calls: empty viewgrams");
 
   // sub-ranges (interpreted modulo the axial range of each segment / the tangential range)
   const json& sr = c["subranges"];
@@ -496,6 +661,9 @@ check_groups(Ctx& X)
           ++ngroups;
           // ---- whole viewgrams of the group
           RelatedViewgrams<float> rv = whole->get_empty_related_viewgrams(vs, X.sym, false, k);
+          if (prefill_vg) // (AUD_C) "it overwrites the data already present in the viewgram" (ForwardProjectorByBin.h:111)
+            for (auto it = rv.begin(); it != rv.end(); ++it)
+              it->fill(vg_junk);
           stats().maxi("largest related-viewgram group", double(rv.get_num_viewgrams()));
           if (rv.get_num_viewgrams() > 1)
             stats().count("related-viewgram groups of size > 1");
@@ -560,6 +728,9 @@ check_groups(Ctx& X)
                 same_range = same_range && p.get_min_axial_pos_num(it->get_segment_num()) == seg_min_ax && p.get_num_axial_poss(it->get_segment_num()) == nax;
               if (!same_range)
                 continue;
+              if (prefill_vg)
+                for (auto it = sub.begin(); it != sub.end(); ++it)
+                  it->fill(vg_junk);
               X.fwd->forward_project(sub, a0, a1, t0, t1);
               double l2 = 0, nA2 = 0, ny2 = 0;
               std::vector<char> rmask(X.P.bins.size(), 0);
@@ -585,7 +756,8 @@ check_groups(Ctx& X)
                         }
                       else
                         {
-                          VF_CHECK(v == 0., "(4) sub-range call ax ", a0, "..", a1, " tang ", t0, "..", t1, " wrote ", v, " outside the sub-range at ", show_bin(b), " ", X.desc);
+                          VF_CHECK(v == (prefill_vg ? double(vg_junk) : 0.), "(4) sub-range call ax ", a0, "..", a1, " tang ", t0, "..", t1, " wrote ", v, " outside the sub-range at ", show_bin(b),
+                                   " (was ", prefill_vg ? double(vg_junk) : 0., ") ", X.desc);
                           (*ic)[a][t] = 0.F;
                         }
                     }
@@ -861,7 +1033,9 @@ check_onthefly(Ctx& X)
   const ProjDataInfo& p = *X.S.pdi;
   // ---- domain of the class; every restriction cites its source
   std::string na;
-  if (X.S.sc->get_scanner_geometry() != "Cylindrical")
+  if (dynamic_cast<const ProjDataInfoSubsetByView*>(&p))
+    na = "data geometry is a subset by view"; // class doc: "projection data info HAS to be of type ProjDataInfoCylindrical"
+  else if (X.S.sc->get_scanner_geometry() != "Cylindrical")
     na = "not a cylindrical scanner"; // class doc: "projection data info HAS to be of type ProjDataInfoCylindrical", s antisymmetric in tang_pos_num
   else if (p.get_num_views() % 2 != 0)
     na = "odd number of views"; // set_up: error("... cannot handle data with odd number of views")
@@ -1295,7 +1469,9 @@ check_interp_backprojector(Ctx& X)
   const ProjDataInfo& p = *X.S.pdi;
   std::string na;
   const auto vsz = X.S.img->get_voxel_size();
-  if (X.S.sc->get_scanner_geometry() != "Cylindrical" || !dynamic_cast<const ProjDataInfoCylindricalArcCorr*>(&p))
+  if (dynamic_cast<const ProjDataInfoSubsetByView*>(&p))
+    na = "data geometry is a subset by view"; // actual_back_project casts to ProjDataInfoCylindricalArcCorr
+  else if (X.S.sc->get_scanner_geometry() != "Cylindrical" || !dynamic_cast<const ProjDataInfoCylindricalArcCorr*>(&p))
     na = "data not arc-corrected"; // actual_back_project: error("can only handle arc-corrected data (cast to ProjDataInfoCylindricalArcCorr)")
   else if (std::fabs(p.get_phi(Bin(0, 0, 0, 0))) > 1e-4)
     na = "view offset"; // set_up: error("cannot handle non-zero view-offset")
@@ -1497,7 +1673,21 @@ check(const json& c)
       if (X.S.sc->check_consistency() != Succeeded::yes)
         return Result::reject("scanner inconsistent");
       X.S.pdi = vg::make_pdi(X.S.sc, c["pdi"]);
-      X.S.img = vg::make_image(c["image"], *X.S.pdi);
+      X.S.img = vg::make_image(c["image"], *X.S.pdi); // (laid out for the full geometry)
+      // (AUD_C) the data geometry may be a ProjDataInfoSubsetByView of it: DataSymmetriesForBins_PET_CartesianGrid.cxx:253-270 has a
+      // "special handling of subset case" (minus-phi symmetries off) and test_proj_data_info_subsets.cxx projects such data
+      if (c["pdi"].contains("subset_views") && c["pdi"]["subset_views"].is_array() && !c["pdi"]["subset_views"].empty())
+        {
+          std::vector<int> views;
+          const int nv = X.S.pdi->get_num_views();
+          for (const json& v : c["pdi"]["subset_views"])
+            {
+              const int w = int(((v.get<long>() % nv) + nv) % nv);
+              if (std::find(views.begin(), views.end(), w) == views.end())
+                views.push_back(w);
+            }
+          X.S.pdi.reset(new ProjDataInfoSubsetByView(X.S.pdi, views));
+        }
       X.S.exam.reset(new ExamInfo(ImagingModality(ImagingModality::PT)));
       X.S.img->set_exam_info(*X.S.exam);
       // a fresh matrix with the same options (cache disabled) accepts the configuration and computes one row per segment?
@@ -1539,6 +1729,8 @@ check(const json& c)
   // class histogram
   stats().cls(interp ? "matrix: interpolation" : "matrix: ray tracing");
   stats().cls(cat("scanner: ", X.S.sc->get_scanner_geometry()));
+  if (const ProjDataInfoSubsetByView* sub = dynamic_cast<const ProjDataInfoSubsetByView*>(X.S.pdi.get()))
+    stats().cls(cat("data geometry: subset by view, ", sub->get_num_views() == 1 ? "a single view" : (sub->get_num_views() == sub->get_original_proj_data_info_sptr()->get_num_views() ? "all views" : "several views")));
   stats().cls(X.S.pdi->is_tof_data() ? "TOF" : "non-TOF");
   stats().cls(cat("cache mode ", c["cache"].get<int>()));
   if (c["pdi"]["span"].get<int>() > 1)
@@ -1592,6 +1784,7 @@ check(const json& c)
 
   C04_DO(check_explicit_and_linear(X));
   C04_DO(check_subsets(X));
+  C04_DO(check_smaller_data(X));
   C04_DO(check_groups(X));
   C04_DO(check_onthefly(X));
   C04_DO(check_interp_backprojector(X));
@@ -1778,6 +1971,30 @@ gen(Src& s, int size)
   for (int k = 0; k < nsr; ++k)
     sr.push_back(json::array({ s.range(0, 30), s.range(0, 30), s.range(0, 60), s.range(0, 60) }));
   c["subranges"] = sr;
+  // ---- domain audit (AUD_C): see check_smaller_data, check_groups (prefill_vg), check() (subset_views) -----------------------
+  c["prefill_vg"] = s.coin();
+  if (s.chance(1, 3))
+    c["smaller"] = json::array({ s.range(0, 2), s.range(0, 3), s.range(0, 3), s.range(0, 2), s.range(0, 2) });
+  if (!interp && scj["geometry"].get<std::string>() == "Cylindrical" && s.chance(1, 8))
+    { // subset by view of a cylindrical geometry (interpolation matrix: "needs ProjDataInfoCylindrical for jacobian")
+      json v = json::array();
+      const long form = s.range(0, 3);
+      if (form == 0)
+        v.push_back(s.range(0, views - 1)); // a single view
+      else if (form == 1)
+        for (int k = 0; k < views; ++k) // all views
+          v.push_back(k);
+      else
+        { // the regular subset k0 of m (form 2) or the same in decreasing order (form 3)
+          const int m = int(s.range(1, std::max(1, views / 2)));
+          for (int k = int(s.range(0, m - 1)); k < views; k += m)
+            v.push_back(k);
+          if (form == 3)
+            std::reverse(v.begin(), v.end());
+        }
+      c["pdi"]["subset_views"] = v;
+      c["num_subsets"] = std::max(1, std::min(c["num_subsets"].get<int>(), int(v.size())));
+    }
   c["sr_budget"] = size >= 80 ? 20000 : 1200; // sub-range calls per case for the on-the-fly projector kind (thorough: effectively all combinations)
   return c;
 }
